@@ -489,16 +489,16 @@ CHECKS["C12"] = {
                   "(1-6 shards, 1-4 storage nodes = separate databases with their own ids) and every generated query must give the answer of the 1-shard/1-node layout under "
                   "every delivery order of the leaf responses (exhaustive, <= 24) and with an intermediate merge node; reference layout cross-checked against a naive model; "
                   "leaf-side receiver split checked as a partition; production broker.StateManager plans replayed in regression tests"),
-    "rule": ("case = (data set, query, layout, topology). Data: 1-3 metrics, 2-12 series (1-2 tag keys, series may report only some fields), sum/min/max/last/first fields, values k/8, 1-2 families, "
+    "rule": ("case = (data set, query, layout, topology). Data: 1-3 metrics, 2-12 series (tag keys from host/zone/dc; in half of the multi-key metrics a series carries only a non-empty subset of the metric's keys; series may report only some fields), sum/min/max/last/first fields, values k/8, 1-2 families, "
              "one row per series and ingestion request in time order. Query: select list (plain / sum / min / max / last / first as series/field/type.go allows) or *, optional tag condition (=, !=, in, not in, and/or), "
-             "time range, group by time(10s..300s), group by tags. TestLayoutIndependence non-trivial = >= 2 leaves answered with data and a delivery order different from the send order was run, "
+             "time range, group by time(10s..300s), group by tags; group by / tag conditions may name keys that some series of the metric lack (such a series is in no group and is selected by no atom on that key). TestLayoutIndependence non-trivial = >= 2 leaves answered with data and a delivery order different from the send order was run, "
              "or the intermediate node merged >= 2 leaf answers with data. TestReceiverSplit non-trivial = some group was sent by >= 2 leaves and >= 2 receivers got data. distinct = hash of data+query+layout+topology"),
     "level_text": ("Generated-input exploration with exhaustive enumeration of the delivery orders (n! for n <= 4 leaves) at the root and at the intermediate node for every generated (query, layout); "
                    "classes recorded: leaves with data / empty answer / not-found, first/last/all-but-one/all not-found, fields differing between leaves, shards, leaves, functions."),
     "level_note": ("Production code: routing (BrokerBatchRows.NewShardGroupIterator), write path, leaf/intermediate/root processors, task managers, planner. Harness: transport, streams, response pool (inline), state-manager answers. "
                    "first/last cells fed by >= 2 series or >= 2 families are only required to hold one of the candidate values (merge order undocumented). Storage state fixed to memory (C11/C03). "
-                   "Plans with several compute targets / the root as compute node cannot complete on this tree (known findings): covered by regression tests, not by the property."),
-    "assumptions": ["TZ=UTC", "every series of a metric carries all tag keys of the metric", "<= 1 row per series per ingestion request, rows of a series in time order",
+                   "Plans with several compute targets / the root as compute node cannot complete on this tree (known findings): covered by regression tests, not by the property. Every node of every layout is additionally read back alone (ungrouped and grouped by each tag-key set present) against the naive model. A disagreement counts only if the same execution (query, layout, delivery order) disagrees 3 times in a row; answers not reproduced on re-execution are counted in the class info:answer-not-reproduced-on-re-execution (the timing-dependent leaf double-reduce, fixed by 456d3fc, is covered by its own repeated-query regression test)."),
+    "assumptions": ["TZ=UTC", "every series carries at least one tag", "<= 12 series per case (default series limit 20 not reached)", "<= 1 row per series per ingestion request, rows of a series in time order",
                     "no order by / limit / having / rate / histogram in the query space", "one storage interval (10s), ranges < 1h"],
     "tests": [
         {"name": "TestLayoutIndependence", "quick": 150, "thorough": {"checks": 400, "shards": 16}},
